@@ -2141,7 +2141,11 @@ class unyt_array(np.ndarray):
                     if not isinstance(o, unyt_array):
                         # None, or a plain ndarray: no units to take over
                         continue
-                    o.units = oa.units
+                    try:
+                        o.units = oa.units
+                    except AttributeError:
+                        # oa is an ndarray (frexp)
+                        o.units = Unit("", registry=self.units.registry)
         if mul == 1:
             return out_arr
         return mul * out_arr
